@@ -136,7 +136,10 @@ def build_driver(name, objdir, cxx=False, extra=()):
     try:
         src = os.path.join(VERIF, "harness", name + (".cpp" if cxx else ".c"))
         exe = os.path.join(objdir, name)
-        deps = [src, os.path.join(VERIF, "harness", "drv_util.h"), os.path.join(objdir, "libmptc.a")]
+        hdir = os.path.join(VERIF, "harness")
+        # any harness source may be #included by a driver: all of them are dependencies
+        deps = [os.path.join(hdir, f) for f in os.listdir(hdir) if f.endswith((".c", ".cpp", ".h"))]
+        deps += [os.path.join(objdir, "libmptc.a")] + ([os.path.join(objdir, "libmptxx.a")] if cxx else [])
         if os.path.exists(exe) and all(os.path.getmtime(exe) >= os.path.getmtime(d) for d in deps if os.path.exists(d)):
             return exe
         cc = ["g++", "-std=gnu++11"] if cxx else ["gcc", "-std=gnu99"]
